@@ -119,12 +119,35 @@ NOT_APPLICABLE = {
 }
 
 
+def _summary():
+    out = {}
+    for line in open(os.path.join(ROOT, 'design_parts', 'head.md')):
+        cells = [c.strip() for c in line.strip().strip('|').split('|')]
+        if len(cells) == 5 and cells[0][:1] == 'C' and cells[0][1:].isdigit() and cells[1] in ('yes', 'fragment'):
+            out[cells[0]] = (cells[2].replace('`', ''), cells[3], cells[4])
+    return out
+
+
+SUMMARY = _summary()
+NOTE_OVERRIDE = {
+    'C13': 'struct model assumes a little-endian host; quaternion compression is decided for enumerated directions x a symbolic scale and for every '
+           'word on the decompression side, the binary64 numpy arithmetic of compress_quaternion additionally by a bounded native check (not '
+           'counted as proved); LED and trajectory list lengths enumerated.',
+}
+
+
 def main():
     props = [json.loads(l)['id'] for l in open(os.path.join(ROOT, 'properties.jsonl'))]
     checks = []
     for pid in props:
         if pid in CLAIMED and os.path.exists(os.path.join(ROOT, 'contracts', pid + '.py')):
             lvl, text, note, ref = CLAIMED[pid]
+            note = NOTE_OVERRIDE.get(pid, note)
+            if pid in SUMMARY:      # the summary table of DESIGN.md (design_parts/head.md) is the current description
+                what, bounded, verdict = SUMMARY[pid]
+                text = 'Under contract: %s.  (Earlier description, still valid: %s)' % (what, text) if pid not in NOTE_OVERRIDE else \
+                    'Under contract: %s.' % what
+                note = '%s  Bounded parts: %s.  Current tree: %s (known_findings.json).' % (note, bounded, verdict)
             checks.append({
                 'property_id': pid,
                 'quick_cmd': './vcheck %s quick' % pid,
